@@ -9,7 +9,7 @@
    species lists on the implementation. *)
 From Coq Require Import Reals List ZArith Permutation.
 Import ListNotations.
-From MPC Require Import Num Species RInst StatMech RVec RSumIdx Radiation GenSpecies GenRadiation GenTransport Transport RefEnergy Gibbs C04_proofs C05_chain C07_proofs C15_proofs C12_split C05_transport C05_blocks.
+From MPC Require Import Num Species RInst StatMech RVec RSumIdx Radiation GenSpecies GenRadiation GenTransport Transport RefEnergy Gibbs C04_proofs C05_chain C07_proofs C15_proofs C12_split C05_transport C05_blocks C05_ext.
 Open Scope R_scope.
 
 Theorem C05_density_perm : forall (U : Units R) (l l' : list (R * species R)),
@@ -102,3 +102,16 @@ Proof.
   - apply (kappa_total_perm nb sigma tau Hs Hts).
 Qed.
 Print Assumptions C05_outputs_invariant.
+
+(* from the species list itself: the collision-integral matrices built (model Transport.Qmix of functions_transport.Qij_mix) for
+   a re-listed species list, fed to the block assembly, give the blocks of the original listing at the re-indexed positions *)
+Theorem C05_blocks_of_relisted_mixture :
+  forall (U : Units R) (G : R -> R) (sps : list (species R)) (nd : list R) (nb : nat) (sigma tau : nat -> nat) (T : R),
+  (forall i, (i < nb)%nat -> (sigma i < nb)%nat) -> (forall i, (i < nb)%nat -> tau (sigma i) = i) ->
+  forall (masses ndf : nat -> R) (p p' i j : nat), (i < nb)%nat -> (j < nb)%nat ->
+  qblock RNum (Q_of U G T (relist nb sigma sps (dummy_species 0)) (relist nb sigma nd 0)) (fun k => masses (sigma k)) nb (fun k => ndf (sigma k)) p p' i j
+  = qblock RNum (Q_of U G T sps nd) masses nb ndf p p' (sigma i) (sigma j) /\
+  qhatblock RNum (Q_of U G T (relist nb sigma sps (dummy_species 0)) (relist nb sigma nd 0)) (fun k => masses (sigma k)) nb (fun k => ndf (sigma k)) p p' i j
+  = qhatblock RNum (Q_of U G T sps nd) masses nb ndf p p' (sigma i) (sigma j).
+Proof. intros U G sps nd nb sigma tau T Hs Hts masses ndf p p' i j Hi Hj. apply (blocks_of_relisted_mixture U G sps nd nb sigma tau T Hs Hts); assumption. Qed.
+Print Assumptions C05_blocks_of_relisted_mixture.
